@@ -38,7 +38,7 @@ def floors(tier):
     return {"evaluations": 100 if q else 1500, "distinct_nontrivial": 40 if q else 600, "parallel_runs": 100 if q else 1500,
             "set:completion_orders": 3, "workers:1": 5, "workers:2": 5, "workers:3": 5, "workers:5": 5, "workers:16": 5, "workers:len+7": 5,
             "cli_triples": 2 if q else 12, "len>=50": 6 if q else 100, "len=50": 2 if q else 30, "len=49": 2 if q else 30,
-            "monitor:_extend_path_sections": 200 if q else 3000}
+            "monitor:_extend_path_sections": 200 if q else 3000, "kernels_with_label_comment_directive_lines": 1 if q else 30}
 
 
 def plan(tier, seed):
@@ -94,8 +94,11 @@ class WorkerProbe:
         self.KD._extend_path = self.orig
 
 
-def make_kernel(krng, isa, vocab, target_len):
-    """Dense dependency core + independent filler lines (source-only forms) spread over the kernel."""
+def make_kernel(krng, isa, vocab, target_len, extras=0):
+    """Dense dependency core + independent filler lines (source-only forms) spread over the kernel.
+
+    extras > 0: that many label / comment / directive lines are spread over the kernel in addition (they are kernel lines
+    without an instruction) and a dependency-carrying line is the last one."""
     core = c05.dense_kernel(krng, isa, vocab, False)
     while len(core) < 10:
         core = core + c05.dense_kernel(krng, isa, vocab, False)
@@ -103,9 +106,19 @@ def make_kernel(krng, isa, vocab, target_len):
     lines = [i["text"] for i in core]
     filler_forms = [v for v in vocab if v["name"] == "fw0a"]
     pool = D.Pool(krng, isa)
-    while len(lines) < target_len:
+    while len(lines) < target_len - extras:
         f = D.instantiate(krng, isa, filler_forms[0], pool)
         lines.insert(krng.randint(0, len(lines)), f["text"])
+    if extras:
+        cm = "#" if isa == "x86" else "//"
+        tail = lines[-1]
+        for j in range(extras):
+            x = krng.choice([".Lx%d:" % j, "%s note %d" % (cm, j), ".p2align 4"])
+            lines.insert(krng.randint(0, len(lines) - 1), x)
+        if tail.startswith("fw0a"):
+            # a line of the dependency core goes last
+            k = max(i for i, l in enumerate(lines) if not l.startswith(("fw0a", ".", cm)))
+            lines.append(lines.pop(k))
     return lines
 
 
@@ -127,7 +140,7 @@ def run_lcd(isa, path, ipath, arch, text, threshold, ncores):
     finally:
         kernel_dg.KernelDG.INSTRUCTION_THRESHOLD = old_thr
         kernel_dg.cpu_count = old_cc
-    return dict_view(dg.get_loopcarried_dependencies()), dg.timed_out
+    return dict_view(dg.get_loopcarried_dependencies()), dg.timed_out, len(forms)
 
 
 TARGETS = [50, 0, 49, 51, 64, 90]
@@ -137,13 +150,18 @@ def gen_case(isa, vocab, path, ipath, mseed, kseed, delay_seeds, probe, R, targe
     krng = random.Random(kseed)
     if target is None:
         target = krng.choice(TARGETS)
-    lines = make_kernel(krng, isa, vocab, target)
+    extras = krng.choice([0, 0, 3, 5, 9]) if target else 0
+    lines = make_kernel(krng, isa, vocab, target, extras)
     text = "\n".join(lines) + "\n"
     n = len(lines)
+    if extras:
+        R.count("kernels_with_label_comment_directive_lines")
     base_case = {"kind": "gen", "isa": isa, "model_seed": mseed, "kernel_seed": kseed, "lines": n, "target": target}
     try:
         with time_limit(300):
-            seq, _ = run_lcd(isa, path, ipath, None, text, 10 ** 9, None)
+            seq, _, nforms = run_lcd(isa, path, ipath, None, text, 10 ** 9, None)
+            if nforms != n:
+                raise RuntimeError("harness: %d parsed lines for %d kernel lines" % (nforms, n))
             probe.take()
             if n >= 50:
                 R.count("len>=50")
@@ -152,7 +170,7 @@ def gen_case(isa, vocab, path, ipath, mseed, kseed, delay_seeds, probe, R, targe
                 nc = n + 7 if w == "len+7" else w
                 for ds in range(delay_seeds):
                     probe.delay_seed = "%s-%s-%s" % (kseed, w, ds)
-                    par, timed_out = run_lcd(isa, path, ipath, None, text, 1, nc)
+                    par, timed_out, _ = run_lcd(isa, path, ipath, None, text, 1, nc)
                     order = probe.take()
                     R.count("parallel_runs")
                     R.count("workers:%s" % w)
